@@ -41,12 +41,12 @@ def strategy_(draw, tier):
     P = draw(st.sampled_from([1, 2, 2, 3, 3, 4, 5, 7, 8] + ([16, 11] if tier == "thorough" else [])))
     T = draw(st.sampled_from([t for t in (1, 1, 2, 4, 8, 16) if P * t <= cap]))
     ix = st.integers(0, N - 1)
-    keys = draw(st.lists(st.tuples(ix, ix, ix, ix), min_size=1, max_size=5, unique=True))
+    keys = draw(st.lists(gen.chi_quad_st(N), min_size=1, max_size=5, unique=True))
     nfreq = draw(st.sampled_from([0, 1, 3, 60, 200]))
     triples = draw(st.lists(gen.triple_st(-4, 4), min_size=nfreq, max_size=nfreq)) if nfreq <= 3 else \
         [[a, b, c] for a in range(-3, 3) for b in range(-3, 3) for c in range(-3, 3)][:nfreq]
     return {"model": mdl, "P": P, "T": T, "delay_seed": draw(st.integers(1, 10 ** 6)), "delay_us": draw(st.sampled_from([0, 300, 3000])),
-            "sa": list(draw(st.tuples(ix, ix, ix, ix))), "sa_clear": draw(st.integers(0, 1)), "keys": [list(k) for k in keys],
+            "sa": list(draw(gen.chi_quad_st(N))), "sa_clear": draw(st.integers(0, 1)), "keys": [list(k) for k in keys],
             "split": draw(st.integers(0, 1)), "clear": draw(st.integers(0, 1)), "triples": triples,
             "eval": draw(st.lists(gen.triple_st(-3, 3), min_size=1, max_size=3))}
 
